@@ -636,6 +636,11 @@ pub fn contexts() -> Vec<Context> {
         ("\\b□", cat(vec![Node::Assert(A::WordB), h0()])),
         ("□\\b", cat(vec![h0(), Node::Assert(A::WordB)])),
         ("\\B□\\B", cat(vec![Node::Assert(A::NotWordB), h0(), Node::Assert(A::NotWordB)])),
+        // an atomic group whose alternatives set different groups (also when they have the same
+        // width), then something that depends on which alternative was committed
+        ("(?>(□)|(□'))\\2", cat(vec![atomic(alt(vec![grp(h0()), grp(h1())])), Node::Backref(2)])),
+        ("(?>(□)|□')(?(1)b|a)", cat(vec![atomic(alt(vec![grp(h0()), h1()])), condg(1, y(), x())])),
+        ("(?>(□)|□')(?!\\1)", cat(vec![atomic(alt(vec![grp(h0()), h1()])), nla(Node::Backref(1))])),
         // a word boundary inside a group whose variable tail is followed only by anchors (or by
         // something that can fail): the tail must be able to give characters back to the anchor
         ("(\\b□)$", cat(vec![grp(cat(vec![Node::Assert(A::WordB), h0()])), Node::Assert(A::End)])),
